@@ -25,12 +25,16 @@ import (
 // Inputs that reproduce an open known finding are recognised on the *input* (so that the search goes on
 // behind them) and counted. Each predicate names the finding it belongs to.
 var (
+	reCC1         = regexp.MustCompile(`\bcc\s*1\b`)
 	reAttrGroupID = regexp.MustCompile(`(?m)^\s*attributes\s+#(\d+)\s*=`)
 	reRetAlign    = regexp.MustCompile(`\b(declare|define|call|invoke)\b[^@\n]*\balign\s+\d+[^@\n]*@`)
 )
 
 // knownOnInput returns the ID of an active known finding the input runs into ("" if none).
 func knownOnInput(x string) string {
+	if kfCC1 && reCC1.MatchString(x) {
+		return "KF-C01-cc1"
+	}
 	seen := map[string]bool{}
 	for _, m := range reAttrGroupID.FindAllStringSubmatch(x, -1) {
 		if seen[m[1]] {
